@@ -35,6 +35,8 @@ class CallMixin:
                 if not r:
                     return []
             return self.call_with_contract(c, e, st, exc, None, expect)
+        if text in ("contextlib.ExitStack", "ExitStack") and not e.args:
+            return self.bi_ExitStack(e, st, exc, expect)
         # 2. logging / tracing: no effect, no exception
         if LOGGING_CALLS.match(text):
             res = []
@@ -262,6 +264,12 @@ class CallMixin:
         # receiver as lvalue (so that mutators can write back), else as value
         res = []
         for s1, recv in self.ev(f.value, st, exc):
+            if recv.s.pyside and getattr(recv.s, "kind", "") == "exitstack" and attr == "callback" and e.args:
+                # ExitStack.callback(fn, *args, **kw): remembered, run in reverse order when the stack is left
+                for s2, (args, kw) in self.ev_args(ast.Call(func=e.func, args=e.args[1:], keywords=e.keywords), s1, exc):
+                    s2.meta[recv.t] = tuple(s2.meta.get(recv.t, ())) + ((e.args[0], list(args), dict(kw), None),)
+                    res.append((s2, S.NONEV()))
+                continue
             if isinstance(recv.s, Obj):
                 c = self.find_contract_method(recv.s.cls, attr)
                 if c is not None:
